@@ -29,7 +29,7 @@ GEN = os.path.join(SPEC, "gen")
 FAMILIES = ("options", "variables", "environments", "status", "output", "names")
 INVARIANTS = ("TypeOK", "RoundTrip", "FixedPoint", "NoKeywordClash", "StageFilesSelfContained")
 FAULTS = {"parse-drops-max-restarts": "options", "two-options-one-keyword": "options", "no-migration": "variables",
-          "env-name-cut-at-hyphen": "names"}
+          "env-name-cut-at-hyphen": "names", "component-variable-equal-to-global-not-written": "variables"}
 ABSENT = "<absent>"
 
 
@@ -100,6 +100,7 @@ def run_models(chk, tier):
         jobs.append(("fault", fault, write_cfg("Dosini_fault_%s.cfg" % fault, fam, "quick", False, fault=fault, invariants=("RoundTrip",))))
     jobs.append(("witness", "WitnessPairFolded", write_cfg("Dosini_witness_pair.cfg", "options", "quick", False, invariants=("WitnessPairFolded",))))
     jobs.append(("witness", "WitnessMigration", write_cfg("Dosini_witness_migration.cfg", "variables", "quick", False, invariants=("WitnessMigration",))))
+    jobs.append(("witness", "WitnessLayering", write_cfg("Dosini_witness_layering.cfg", "variables", "quick", False, invariants=("WitnessLayering",))))
     jobs.append(("witness", "WitnessPrefixNames", write_cfg("Dosini_witness_prefix.cfg", "names", "quick", False, invariants=("WitnessPrefixNames",))))
     jobs.append(("witness", "WitnessManyStages", write_cfg("Dosini_witness_stages.cfg", "names", "quick", False, invariants=("WitnessManyStages",))))
     jobs.append(("coverage", "variables", write_cfg("Dosini_cov.cfg", "variables", "quick", False)))
@@ -224,14 +225,14 @@ def render_case(case, atoms):
     # variables
     for v in case["vars"]:
         scope, name, cls = v["scope"], v["name"], v["cls"]
-        val = var_value(scope, name, cls)
+        val = var_value(v["val"], name, cls)        # `val` identifies the text (= the scope, or A / B in the layering cases)
         if scope == "global":
             gvars[name] = val
         elif scope.startswith("stage"):
             doc["variables"]["default"]["stages"].setdefault(int(scope[5:]), {})[name] = val
         else:
             by_name[scope[len("comp:"):]].setdefault("variables", {})[name] = val
-    cls_of = {(v["scope"], v["name"]): v["cls"] for v in case["vars"]}
+    cls_of = {(v["val"], v["name"]): v["cls"] for v in case["vars"]}
     for e in case["expected"]["vars"]:
         if e["src"] == "var":
             exp["vars"][e["comp"]][e["name"]] = resolved_var_value(e["scope"], e["name"], cls_of[(e["scope"], e["name"])])
@@ -465,6 +466,27 @@ def execute_case(env, case, atoms, scratch, second_round=True):
     return res
 
 
+def is_layering(case):
+    return case["fam"] == "variables" and any(v["val"] in ("A", "B") for v in case["vars"])
+
+
+def one_chain(case):
+    """layering cases that touch the chain of a single component (global/stage1/comp:c or global/stage0/comp:prod): 2 x 3^3 assignments"""
+    scopes = {v["scope"] for v in case["vars"]}
+    return scopes <= {"global", "stage1", "comp:c"} or scopes <= {"global", "stage0", "comp:prod"}
+
+
+def layering_pattern(case, comp):
+    """global/stage/component texts of the variable as the component sees them, first text renamed to A ('-' = not defined)"""
+    stage = "stage0" if comp == "prod" else "stage1"
+    chain = []
+    for scope in ("global", stage, "comp:" + comp):
+        vals = [v["val"] for v in case["vars"] if v["scope"] == scope]
+        chain.append(vals[0] if vals else "-")
+    first = next((x for x in chain if x != "-"), "A")
+    return "/".join("-" if x == "-" else ("A" if x == first else "B") for x in chain)
+
+
 def failed(res):
     return bool(res["error"] or res["diffs"] or res["diffs2"] or res["spec_bad"])
 
@@ -475,7 +497,8 @@ def case_label(case, atoms):
         return "options[%s] backend=%s layer=%s inject=%s" % (
             ", ".join("%s=%s" % (atoms[i]["path"], atoms[i]["cls"]) for i in case["opts"]), case["backend"], case["layer"], case["inject"])
     if fam == "variables":
-        return "variables[%s]" % ", ".join("%s.%s=%s" % (v["scope"], v["name"], v["cls"]) for v in sorted(case["vars"], key=lambda v: (v["scope"], v["name"])))
+        return "variables[%s]" % ", ".join("%s.%s=%s" % (v["scope"], v["name"], v["val"] if is_layering(case) else v["cls"])
+                                            for v in sorted(case["vars"], key=lambda v: (v["scope"], v["name"])))
     if fam == "environments":
         return "environments[%s] apps=%d venvs=%d" % (", ".join("%s{%s}:%s" % (e["name"], ",".join(sorted(e["vars"])), e["cls"])
                                                                 for e in sorted(case["envs"], key=lambda e: e["name"])), case["apps"], case["venvs"])
@@ -684,6 +707,10 @@ def other_key(case, res, neutral_sig):
     if fam == "variables":
         if any(v["cls"] == "percent" for v in case["vars"]):
             return "roundtrip:value:lone-percent"
+        if is_layering(case):
+            comps = sorted({c.split(".", 1)[1] for c, p, a, b in (res["diffs"] or res["diffs2"] or res["spec_bad"]) if c.startswith("stage")}) or ["c"]
+            pats = sorted({layering_pattern(case, c) for c in comps if c in ("prod", "c")}) or [layering_pattern(case, "c")]
+            return "roundtrip:variables:layering:global/stage/component=%s%s" % (pats[0], suffix)
         special = sorted({v["cls"] for v in case["vars"]} - {"punct"})
         if special:
             return "roundtrip:variables:value-%s%s" % (special[0], suffix)
@@ -886,25 +913,30 @@ def observe_inexpressible(chk, env, atoms):
             a["path"], a["cls"], CAT.INEXPRESSIBLE[(a["path"], a["cls"])], describe(res) if failed(res) else "round-trips"))
 
 
-def check_configuration_class(chk, env, atoms, cases):
+def check_configuration_class(chk, env, atoms, cases, layering=()):
     """conf.py anchor: DOSINIExperimentConfiguration writes the instance files when it is created from a legacy package
     (FlowIRConcrete.instance of the unreplicated description + Dosini.dump(is_instance=True)) and a second one reads them
     (is_instance=True).  The property is applied to exactly these two objects: the description the first one wrote against the
     description the second one loaded.  Done for the single-option cases of the primary classes (component layer)."""
     import experiment.model.conf as conf
     import experiment.model.errors as errors
-    n, unusable = 0, []
+    n, unusable, seen = 0, [], {}
     root = os.path.join(chk.scratch, "pkg")
-    for case in cases:
-        if len(case["opts"]) != 1 or case["layer"] != "component" or case["inject"]:
-            continue
-        a = atoms[case["opts"][0]]
-        if not a["primary"] or case["backend"] != {"resourceManager.lsf": "lsf", "resourceManager.kubernetes": "kubernetes"}.get(a["section"], "local"):
-            continue
-        if a["type"] in ("envname", "reflist", "docker"):
-            # the configuration class validates the package: undefined producers/environments and the legacy docker executor
-            # (rejected by the FlowIR schema: executors.main must be empty) cannot be instantiated
-            continue
+    for case in list(cases) + list(layering):
+        if is_layering(case):
+            # the layering of one variable over global / stage / component scope, through the configuration class
+            key = "configuration-class:roundtrip:variables:layering"
+        else:
+            if len(case["opts"]) != 1 or case["layer"] != "component" or case["inject"]:
+                continue
+            a = atoms[case["opts"][0]]
+            if not a["primary"] or case["backend"] != {"resourceManager.lsf": "lsf", "resourceManager.kubernetes": "kubernetes"}.get(a["section"], "local"):
+                continue
+            if a["type"] in ("envname", "reflist", "docker"):
+                # the configuration class validates the package: undefined producers/environments and the legacy docker executor
+                # (rejected by the FlowIR schema: executors.main must be empty) cannot be instantiated
+                continue
+            key = "configuration-class:" + ("roundtrip:%s" % a["path"])
         doc, exp = render_case(case, atoms)
         if case["backend"] == "kubernetes":
             doc["components"][1]["resourceManager"].setdefault("kubernetes", {}).setdefault("image", "registry.example/img:1")
@@ -916,7 +948,6 @@ def check_configuration_class(chk, env, atoms, cases):
             env.D.Dosini().dump(package, os.path.join(root, "conf"), update_existing=True, is_instance=False)
         except Exception as e:
             raise MachineryError("cannot prepare the legacy package for %s: %r" % (case_label(case, atoms), e))
-        key = "configuration-class:" + ("roundtrip:%s" % a["path"])
         chk.evaluated(("conf",) + case_key(case))
         try:
             c1 = conf.DOSINIExperimentConfiguration(root, "default", [], {}, is_instance=False, createInstanceFiles=True, primitive=True)
@@ -944,11 +975,17 @@ def check_configuration_class(chk, env, atoms, cases):
                     bad.append("stage%d.%s %s: package configuration %r, instance configuration %r" % (cid[0], cid[1], k, va, vb))
         n += 1
         if bad:
-            chk.violation(key, "%s via DOSINIExperimentConfiguration: %s" % (case_label(case, atoms), "; ".join(bad[:3])),
-                          {"case": case, "via": "configuration-class"})
+            if is_layering(case):
+                comp = "prod" if ".prod " in bad[0] else "c"
+                key += ":global/stage/component=" + layering_pattern(case, comp)
+            seen[key] = seen.get(key, 0) + 1
+            if seen[key] == 1 or key in chk.known_keys:        # one replay file per key; every case is counted
+                chk.violation(key, "%s via DOSINIExperimentConfiguration: %s" % (case_label(case, atoms), "; ".join(bad[:3])),
+                              {"case": case, "via": "configuration-class"})
         else:
             chk.trace_validated()
     chk.cov["configuration_class_packages_refused"] = unusable[:5]
+    chk.cov["configuration_class_failing_cases_per_key"] = seen
     return n, len(unusable)
 
 
@@ -971,7 +1008,8 @@ def _run(chk, tier):
         chk.assumptions.append("keywords of the catalogue the frontend does not list as known (their cases decide): %s" % missing_keywords)
     results = run_cases(chk, env, cases, atoms)
     observe_inexpressible(chk, env, atoms)
-    nconf, refused = check_configuration_class(chk, env, atoms, [c for c, r in results.get("options", [])])
+    nconf, refused = check_configuration_class(chk, env, atoms, [c for c, r in results.get("options", [])],
+                                               layering=[c for c, r in results.get("variables", []) if is_layering(c) and one_chain(c)])
     for fam in FAMILIES:
         for case, res in results.get(fam, [])[:1]:
             chk.sample({"family": fam, "case": case_label(case, atoms), "result": "round-trips" if not failed(res) else describe(res)}, limit=8)
@@ -980,7 +1018,8 @@ def _run(chk, tier):
     chk.cov["rule"] = ("options: every (option, value class) atom of the catalogue alone x {5 backends at component level; global / stage blueprint; "
                        "all-fields-injected instance}, every pair of options inside a section x 5 backends (thorough: every pair of options across "
                        "sections, every pair of value classes inside a section, all layers x injection); variables: every subset of "
-                       "{global, stage0, stage1, comp} x {v, V} + value classes; environments: {absent, empty, 1, 2 variables}^3 names x "
+                       "{global, stage0, stage1, comp} x {v, V} + value classes + the layering of one name over global/stage0/stage1/comp:prod/comp:c with "
+                       "texts absent/A/B in every scope (3^5 assignments: equal and different values between scopes; also through DOSINIExperimentConfiguration); environments: {absent, empty, 1, 2 variables}^3 names x "
                        "application-dependencies 0..2 x virtual-environments 0..2 + value classes; status: 4 weight pairs x 5 forms^2; output: every "
                        "well-formed entry + pairs of entries whose names differ by case; names: every single name and every pair of names of the explicit alphabet "
                        "of the catalogue (hyphen, dot, underscore, digits, mixed case, prefix pairs gcc/gcc-7 env/env-2, names containing the ENV prefix, "
